@@ -337,10 +337,12 @@ def kani_run_playback(scratch: Scratch, cfg: str, test_name: str) -> tuple[int, 
 # ----------------------------------------------------------------------------------------------------
 # Engine V: Verus on mechanically extracted functions
 # ----------------------------------------------------------------------------------------------------
-def run_verus(path: Path, timeout: int = 300, rlimit: int | None = None) -> tuple[dict, str, float]:
+def run_verus(path: Path, timeout: int = 300, rlimit: int | None = None, seed: int | None = None) -> tuple[dict, str, float]:
     cmd = ["verus", str(path), "--output-json", "--time", "--multiple-errors", "50", "--triggers-mode", "silent"]
     if rlimit:
         cmd += ["--rlimit", str(rlimit)]
+    if seed is not None:
+        cmd += ["--smt-option", f"smt.random_seed={seed}", "--smt-option", f"sat.random_seed={seed}"]
     env = dict(os.environ)
     t0 = time.time()
     try:
